@@ -12,7 +12,8 @@ from ..tissue import PRNG
 PROP = "C08"
 RULE = ("(1) exhaustive: every one of the 2^n cell subsets (n <= 10) of small Voronoi/Moebius base tissues, each with a "
         "drawn sampling (0..15 interior points) and labelling; (2) Hypothesis: random subsets of tissues up to 60 cells "
-        "and lattices, optionally passed through generate_mesh(ne>=2). Frame.big_edges_list and the three copies of the "
+        "and lattices, optionally passed through generate_mesh(ne>=2); (3) meshes built by each parser (Surface Evolver "
+        "dump, WKT, tessellation, shipped and synthetic skeleton images), optionally resampled. Frame.big_edges_list and the three copies of the "
         "internal/external predicate are compared with an independent multigraph walk + cell-count predicate. "
         "Non-trivial = sub-tissue with >=1 internal and >=1 external interface; distinct = (base, subset, sampling).")
 ASSUMPTIONS = [
@@ -273,9 +274,55 @@ def check_random(p, ctx):
     ctx.count("lookups-by-cells", res["lookups"])
 
 
+# ------------------------------------------------------------------------------------------ parser part
+@st.composite
+def params_parser(draw, tier):
+    """Meshes as the parsers build them (Surface Evolver dump, WKT, tessellation, shipped and synthetic skeletons),
+    optionally resampled: same strategy as C09's construction paths without the direct-construction one."""
+    from . import c09
+    p = draw(c09.params(tier).filter(lambda q: q["source"] != "realise"))
+    p["ne"] = draw(st.one_of(st.none(), st.integers(2, 12)))
+    p.pop("ops", None)
+    return p
+
+
+def check_parser(p, ctx):
+    import shutil
+    import tempfile
+    import forsys.virtual_edges as fve
+    from ..core import ForsysCrash
+    from . import c09
+    tmpdir = tempfile.mkdtemp(prefix="c08_")
+    try:
+        v, e, c = c09.construct(p, tmpdir)
+    finally:
+        shutil.rmtree(tmpdir, ignore_errors=True)
+    if p.get("ne"):
+        try:
+            v, e, c, _ = call(fve.generate_mesh, v, e, c, ne=p["ne"])
+        except ForsysCrash as cr:
+            ctx.skip(f"generate_mesh rejected or crashed ({cr.kind}): reported under C09 / C11")
+            return
+        pairs = [frozenset((ed.v1.id, ed.v2.id)) for ed in e.values()]
+        if len(set(pairs)) != len(pairs) or any(len(cell.vertices) < 3 for cell in c.values()):
+            ctx.exclude_known("D22")
+            ctx.count("excluded:D22-degenerate-cell-after-contraction")
+            return
+    res = check_frame(ctx, p, v, e, c, "parser")
+    if res is None:
+        return
+    ctx.count("parser:" + p["source"] + (":resampled" if p.get("ne") else ""))
+    if res["internal"] >= 1 and res["external"] >= 1:
+        ctx.mark_nontrivial(p)
+        if len(ctx.samples) < 12:
+            ctx.sample({"params": p, **res})
+    ctx.count("lookups-by-cells", res["lookups"])
+
+
 def run(ctx):
     n = ctx.budget(quick=250, thorough=300)
     drive(ctx, params(ctx.tier), check_random, n, label="random")
+    drive(ctx, params_parser(ctx.tier), check_parser, ctx.budget(quick=80, thorough=200), label="parser", seed_offset=2)
 
 
 def evidence_extra(ctx):
@@ -283,4 +330,4 @@ def evidence_extra(ctx):
             "exhaustive": bool([n for n in ctx.notes if "enumerated completely" in n])}
 
 
-CASES = {"subset": check_subset, "random": check_random}
+CASES = {"subset": check_subset, "random": check_random, "parser": check_parser}
